@@ -302,8 +302,10 @@ impl Model {
         #[cfg(feature = "verif")]
         crate::verif::point("hb.stopped", matcher_stopped as usize, self.matcher_control.is_some() as usize);
 
+        // read once per heart beat: the clear decision below and `processed` must agree on it
+        let reader_stopped = self.reader_control.as_ref().map(ReaderControl::is_done).unwrap_or(true);
+
         if matcher_stopped {
-            let reader_stopped = self.reader_control.as_ref().map(ReaderControl::is_done).unwrap_or(true);
             #[cfg(feature = "verif")]
             crate::verif::point("hb.done1", reader_stopped as usize, 0);
             let ctrl = self.matcher_control.take().unwrap();
@@ -335,7 +337,6 @@ impl Model {
         }
 
         let items_consumed = self.item_pool.num_not_taken() == 0;
-        let reader_stopped = self.reader_control.as_ref().map(|c| c.is_done()).unwrap_or(true);
         let processed = reader_stopped && items_consumed;
         #[cfg(feature = "verif")]
         crate::verif::point("hb.done2", reader_stopped as usize, items_consumed as usize);
